@@ -320,6 +320,63 @@ def repairSeqOp (inp impl : Json) : Except String Resp := do
     | none => if allowed then "" else s!"model and controller differ at reconcile #{(cmp.takeWhile id).length}"
   pure { allowed := some allowed, spec := some bad.isNone, why := why, extra := some modelJson }
 
+/-! ### c16.repair_target -/
+
+def parseTClaim (j : Json) : Except String TClaim := do
+  let pool ← strF j "pool"
+  pure { name := ← strF j "name", pid := ← strF j "pid", pool := if pool == "" then none else some pool,
+         deleting := ← boolD j "deleting" false }
+
+def repairTargetOp (inp impl : Json) : Except String Resp := do
+  let policies ← (← arrD inp "policies").mapM (fun p => do
+    pure ({ type := ← strF p "type", status := ← strF p "status", toleration := ← intF p "tolerationNs" } : Policy))
+  if policies.any (fun p => p.status == "") then throw "policy with an empty status is outside the model"
+  let nodeJ ← fld inp "node"
+  let i : RepairTIn := {
+    policies, node := ← parseRNode nodeJ, nodePid := ← strF nodeJ "pid",
+    claims := ← (← arrD inp "claims").mapM parseTClaim,
+    others := ← (← arrD inp "others").mapM parseRNode, now := ← intF inp "now",
+    claimListFault := (← faultD inp "claimListFault") != .none,
+    nodeListFault := ← faultD inp "nodeListFault", patchFault := ← faultD inp "patchFault",
+    deleteFault := ← faultD inp "deleteFault" }
+  let names := i.claims.map (·.name)
+  if names.eraseDups.length != names.length then throw "NodeClaim names must be distinct"
+  let m := repairT i
+  let deleted ← (← arrD impl "deleted").mapM asStr
+  let patched ← (← arrD impl "patched").mapM asStr
+  let requeue ← intF impl "requeueNs"
+  let err ← boolF impl "err"
+  let requeueOk := match m.branch with
+    | .wait => requeue == m.out.requeue
+    | .blocked => requeue > 0
+    | _ => requeue == 0
+  let allowed := deleted == m.deleted && patched == m.patched && err == m.out.err && requeueOk
+  let bad := deleted.filter (fun d => !repairTargetMayDelete documentedUnhealthyPercent i d)
+  let modelJson := jObj [("deleted", jArr (m.deleted.map jStr)), ("patched", jArr (m.patched.map jStr)),
+    ("requeueNs", jInt m.out.requeue), ("err", jBool m.out.err), ("branch", jStr (toString (repr m.branch)))]
+  let why := match bad with
+    | d :: _ =>
+      (match i.claims.find? (fun c => c.name == d) with
+       | none => s!"node repair deleted {d}, which is not one of the NodeClaims"
+       | some c =>
+         if !claimIsOfNode i.nodePid c then
+           s!"node repair, reconciling a Node with " ++ (if i.nodePid == "" then "no provider id" else s!"provider id {i.nodePid}") ++
+           s!", issued a Delete for NodeClaim {d} which is not that Node's NodeClaim (" ++
+           (if c.pid == "" then "it has no provider id yet: it is still launching, has no Node and no unhealthy condition"
+            else s!"its provider id is {c.pid}") ++ ")"
+         else if !tolerationLasted i.policies i.node.conds i.now then s!"node repair issued a Delete for {d} before any unhealthy condition of its Node lasted its toleration"
+         else if i.nodeListFault != .none then s!"node repair issued a Delete for {d} although the pool's nodes could not be listed"
+         else s!"node repair issued a Delete for {d} although {((breakerNodes (i.view c)).filter (nodeUnhealthy i.policies)).length} of {(breakerNodes (i.view c)).length} nodes are unhealthy (more than {documentedUnhealthyPercent}% rounded up)")
+    | [] => if allowed then "" else s!"model: {modelJson.compress}"
+  let sig := match bad with
+    | d :: _ =>
+      (match i.claims.find? (fun c => c.name == d) with
+       | some c => if claimIsOfNode i.nodePid c then "repair_target" else "repair_target:foreign-claim"
+       | none => "repair_target:foreign-claim")
+    | [] => "repair_target"
+  pure { allowed := some allowed, spec := some bad.isEmpty, why := why,
+         extra := some (jObj [("signature", jStr sig), ("model", modelJson)]) }
+
 def handle : Handler := fun op inp impl =>
   match op with
   | "c16.expiration" => expirationOp inp impl
@@ -328,6 +385,7 @@ def handle : Handler := fun op inp impl =>
   | "c16.liveness" => livenessOp inp impl
   | "c16.repair" => repairOp inp impl
   | "c16.repair_seq" => repairSeqOp inp impl
+  | "c16.repair_target" => repairTargetOp inp impl
   | _ => .error s!"unknown op {op}"
 
 end Karp.Driver.C16
